@@ -8,5 +8,5 @@ import (
 
 func TestReplay(t *testing.T) {
 	Setup()
-	vrt.ReplayMain(map[string]func(){"Harness_history": Harness_history})
+	vrt.ReplayMain(map[string]func(){"Harness_history": Harness_history, "Harness_maps": Harness_maps})
 }
